@@ -326,7 +326,7 @@ MD_DTYPES = ['bool', 'uint8', 'uint16', 'uint32', 'uint64', 'int8', 'int16', 'in
 MD_PATTERNS = ['binary', 'ones', 'zeros', 'overlap-sum', 'counts', 'scaled', 'twos', 'gray', 'signed', 'negated']
 # Wavefront.babinet computes `1 - fpm` in the mask's own dtype; for an unsigned mask holding values above 1 that wraps around (HEAD: reported as a
 # candidate defect, proposed_fixes/C05-babinet-unsigned-mask-complement.diff).  Judged only when this switch is on (set it to True once the fix is in).
-MD_BABINET_UNSIGNED_COUNTS = os.environ.get('C05_BABINET_UNSIGNED_COUNTS') == '1'
+MD_BABINET_UNSIGNED_COUNTS = os.environ.get('C05_BABINET_UNSIGNED_COUNTS', '1') == '1'     # in the domain since the fix "babinet forms the complement of the mask in floating point"
 MD_LAYOUTS = ['C', 'F', 'strided-view', 'reversed-view', 'transposed-view', 'read-only']
 MD_GEOM = [  # pupil shape, mask shape, band (fpm_dx = wvl*efl/(dx*band)), shift in focal samples, unit set
     {'n': [3, 4], 'mask': [6, 6], 'band': 6.0, 'shift': [0, 0], 'units': 0},        # full band: babinet(M) = T(M)
